@@ -191,9 +191,10 @@ def _load(t: ast.AST) -> ast.AST:
 
 
 class Evaluator:
-    def __init__(self, src: Optional[str] = None, entry: str = "systems") -> None:
+    def __init__(self, src: Optional[str] = None, entry: str = "systems", unity_anchors: bool = True) -> None:
         self.src = src or SRC
         self.entry = entry
+        self.unity_anchors = unity_anchors
         self.ns: Dict[str, ModuleNS] = {}
         self.loading: List[str] = []
         self.order: List[str] = []
@@ -998,6 +999,9 @@ class Evaluator:
 
     def _solve(self, edge: Edge) -> None:
         anchors = {u.uid for u in self.unit_by_id.values() if u.is_base and u.module in ("", "si")}
+        if self.unity_anchors:
+            self.sizes.unity = {u.uid for u in self.unit_by_id.values() if u.is_base and u.module in ("", "si") and not u.dimension.exps
+                                and u.name in UNITY_NAMES}
         prefer = None
         if len(edge.a.factors) == 1:
             (uid, e), = edge.a.factors.items()
@@ -1283,6 +1287,11 @@ class Evaluator:
 # unit sizes: multiplicative Gaussian elimination over base units
 
 
+# the dimensionless units SI itself defines as the number 1 (SI brochure 2.3.3: rad = m/m, sr = m^2/m^2); every other
+# dimensionless unit (degree, percent, ...) gets its size from its declarations
+UNITY_NAMES = {"one", "radian", "steradian"}
+
+
 class SizeSystem:
     """Each base unit u has an unknown positive size s_u.  A declaration
     `1 A = r B` (A, B unit monomials, prefixes already folded into r) is the equation
@@ -1290,6 +1299,10 @@ class SizeSystem:
     number that must be 1."""
 
     def __init__(self) -> None:
+        # base units whose size is 1 by definition: One and the dimensionless SI units (rad = m/m, sr = m^2/m^2).  The planner
+        # agrees - it sheds a dimensionless factor without a step (anchor F4, sa/planner_reach.py) - so an equation that would
+        # give one of them another size is a dependent equation with a residual, not a definition
+        self.unity: Set[int] = set()
         self.rows: Dict[int, Tuple[Dict[int, Fraction], Num]] = {}  # pivot uid -> (vec without pivot, rhs): s_p = rhs * prod s_u^vec[u]
         self.residuals: List[Tuple[Edge, Num, int]] = []
         self.pivot_edge: Dict[int, Edge] = {}
@@ -1311,6 +1324,8 @@ class SizeSystem:
                         if vec[u] == 0:
                             del vec[u]
                     changed = True
+        for u in [u for u in vec if u in self.unity]:
+            del vec[u]
         return vec, rhs
 
     def add(self, edge: Edge, prefer: Optional[int], free_last: Set[int]) -> Optional[Num]:
